@@ -3,6 +3,7 @@ package errors
 import (
 	"errors"
 	"fmt"
+	"strings"
 
 	"google.golang.org/grpc/codes"
 	"google.golang.org/grpc/status"
@@ -31,7 +32,16 @@ func Error(err error) error {
 		code = codes.Internal
 	}
 
-	st, _ := status.New(code, err.Error()).WithDetails(errorToPbError(err))
+	// A status travels in protobuf string fields, which have to be valid UTF-8.
+	// An error text that is not (it may quote a path, for example) must not
+	// cost the caller the error itself.
+	msg := strings.ToValidUTF8(err.Error(), "\uFFFD")
+
+	st := status.New(code, msg)
+	if detailed, dErr := st.WithDetails(errorToPbError(err, msg)); dErr == nil {
+		st = detailed
+	}
+
 	return st.Err()
 }
 
@@ -63,7 +73,7 @@ func ClientError(err error) error {
 	}
 }
 
-func errorToPbError(err error) *store.Error {
+func errorToPbError(err error, msg string) *store.Error {
 	var errCode store.ErrorCode
 	switch {
 	case errors.Is(err, fs_db.ErrNoFreeSpace):
@@ -84,7 +94,7 @@ func errorToPbError(err error) *store.Error {
 
 	return &store.Error{
 		Code:    errCode,
-		Message: ptr.Ptr(err.Error()),
+		Message: ptr.Ptr(msg),
 	}
 }
 
